@@ -442,37 +442,35 @@ func (a *ownAnalysis) lenLowerBoundKey(fc *FCFG, n ast.Node, stack []ast.Node, k
 					continue
 				}
 				ast.Inspect(hd.Body, func(k ast.Node) bool {
-					rs, ok := k.(*ast.RangeStmt)
-					if !ok || rs.Value == nil {
+					st1, isStmt := k.(ast.Stmt)
+					if !isStmt {
+						return true
+					}
+					hseq, helem, hbody, ok := forAllView(hinfo, st1)
+					if !ok {
 						return true
 					}
 					// ranges over the parameter's cells
-					if ha.resolvedKey(rs.X, 0) != hps[ai].Name()+".Cells" && !strings.HasPrefix(ha.resolvedKey(rs.X, 0), "$") {
-						if se, ok := ast.Unparen(rs.X).(*ast.SelectorExpr); !ok || identObj(hinfo, se.X) != hps[ai] {
-							return true
-						}
+					if se, ok := ast.Unparen(hseq).(*ast.SelectorExpr); !ok || identObj(hinfo, se.X) != hps[ai] {
+						return true
 					}
 					early := false
-					ast.Inspect(rs.Body, func(q ast.Node) bool {
-						if br, ok := q.(*ast.BranchStmt); ok && (br.Tok == token.BREAK || br.Tok == token.GOTO || br.Tok == token.CONTINUE) {
-							early = true
-						}
-						return true
-					})
+					for _, bs := range hbody {
+						ast.Inspect(bs, func(q ast.Node) bool {
+							if br, ok := q.(*ast.BranchStmt); ok && (br.Tok == token.BREAK || br.Tok == token.GOTO || br.Tok == token.CONTINUE) {
+								early = true
+							}
+							return true
+						})
+					}
 					if early {
 						return true
 					}
-					xkey := ha.resolvedKey(rs.Value, 0)
-					for _, st := range rs.Body.List {
-						his, ok := st.(*ast.IfStmt)
-						if !ok || his.Else != nil || len(his.Body.List) == 0 {
-							continue
-						}
-						hr, isRet := his.Body.List[len(his.Body.List)-1].(*ast.ReturnStmt)
-						if !isRet || len(hr.Results) != 1 || isNilIdent(hinfo, hr.Results[0]) {
-							continue
-						}
-						if sub := ha.guardBound(his.Cond, xkey); sub > lb {
+					xkey := ha.resolvedKey(helem, 0)
+					// only a refusal counts: `return nil` inside the loop would be the helper saying `fine`
+					refuses := func(rs *ast.ReturnStmt) bool { return len(rs.Results) == 1 && !isNilIdent(hinfo, rs.Results[0]) }
+					for _, cond := range returnGuardsIf(hbody, refuses) {
+						if sub := ha.guardBound(cond, xkey); sub > lb {
 							lb = sub
 						}
 					}
@@ -1487,7 +1485,20 @@ func forAllView(info *types.Info, st ast.Stmt) (seq, elem ast.Expr, body []ast.S
 	switch x := st.(type) {
 	case *ast.RangeStmt:
 		if x.Value == nil {
-			return nil, nil, nil, false
+			// `for i := range S { x := S[i]; … }`
+			idx := identObj(info, x.Key)
+			if idx == nil || len(x.Body.List) == 0 {
+				return nil, nil, nil, false
+			}
+			first, isAs := x.Body.List[0].(*ast.AssignStmt)
+			if !isAs || len(first.Lhs) != 1 || len(first.Rhs) != 1 {
+				return nil, nil, nil, false
+			}
+			ie, isIdx := ast.Unparen(first.Rhs[0]).(*ast.IndexExpr)
+			if !isIdx || identObj(info, ie.Index) != idx || types.ExprString(ie.X) != types.ExprString(x.X) {
+				return nil, nil, nil, false
+			}
+			return x.X, first.Lhs[0], x.Body.List[1:], true
 		}
 		return x.X, x.Value, x.Body.List, true
 	case *ast.ForStmt:
@@ -1546,14 +1557,17 @@ func forAllView(info *types.Info, st ast.Stmt) (seq, elem ast.Expr, body []ast.S
 // returnGuards: the conditions under which a statement list leaves the function at once — `if C { …; return }`
 // without else, and the cases of a tagless `switch { case C: …; return }` (after the switch every case
 // condition whose body returns is false, whichever case was tried first).
-func returnGuards(list []ast.Stmt) []ast.Expr {
+func returnGuards(list []ast.Stmt) []ast.Expr { return returnGuardsIf(list, nil) }
+
+// returnGuardsIf: as returnGuards, counting only returns accepted by keep (nil: all).
+func returnGuardsIf(list []ast.Stmt, keep func(*ast.ReturnStmt) bool) []ast.Expr {
 	var out []ast.Expr
 	endsInReturn := func(b []ast.Stmt) bool {
 		if len(b) == 0 {
 			return false
 		}
-		_, isRet := b[len(b)-1].(*ast.ReturnStmt)
-		return isRet
+		rs, isRet := b[len(b)-1].(*ast.ReturnStmt)
+		return isRet && (keep == nil || keep(rs))
 	}
 	for _, st := range list {
 		switch x := st.(type) {
